@@ -8,14 +8,16 @@
    read back as the same to-one ID / the same set of to-many IDs.
    [time_ok]/[bytes_ok] are the oracle hypotheses about time.Time's JSON form
    and base64 (checked on the Go side for every generated value).
-   NOT YET PROVED (kept visible): the composition through the resource
-   skeleton -- [C01_roundtrip_full] below is only validated by the
-   correspondence run (marshal_resource / unmarshal_resource are executed on
-   every generated resource of both implementations and compared with Go). *)
+   [C01_soft_resource_roundtrip] composes them through the payload skeleton
+   for soft resources (every type, every resource, every prefix).  For
+   struct-backed resources the composition is validated by the correspondence
+   run only (marshal_resource / unmarshal_resource are executed on every
+   generated resource of both implementations and compared with Go). *)
 From Coq Require Import Permutation.
 From JV Require Import Model.Base Model.GoTime Gen.TypeGo Model.Schema Model.Value
-  Model.Strconv Model.Json Model.Attr Model.Marshal Model.Unmarshal
-  Proofs.C06Facts Proofs.C01Facts.
+  Model.Strconv Model.Json Model.Attr Model.SoftRes Model.Wrapper Model.Resource
+  Model.Marshal Model.Unmarshal
+  Proofs.C06Facts Proofs.SoftFacts Proofs.C01Facts Proofs.C01Full.
 
 Theorem C01_attr_roundtrip_partial : forall e a v,
   (1 <= acode a <= 14)%Z -> in_domain e a v ->
@@ -34,13 +36,37 @@ Theorem C01_to_many_roundtrip_partial : forall ids ty,
 Proof. exact to_many_roundtrip. Qed.
 Print Assumptions C01_to_many_roundtrip_partial.
 
-(* The full statement, for reference (not proved in this development yet):
-   Definition C01_roundtrip_full := forall e s t r pre j,
-     in_schema s t -> resource_of_type r t -> values_in_domain e r ->
-     marshal_resource e r pre (all_fields t) (all_reldata t) = Ok j ->
-     exists r', unmarshal_resource e s j = Ok r' /\ res_type_name r' = tname t /\
-                res_get r' "id" = res_get r "id" /\
-                forall f, is_field t f -> same (res_get r f) (res_get r' f). *)
+(** The resource-level round trip, for soft resources: marshaling with every
+    field selected and relationship data requested, then unmarshaling against
+    the schema that holds the type, yields a resource of the same type with
+    the same ID, the same value for every attribute ([same_value]: integers
+    exactly, times as instants, nil-ness kept) and the same related IDs for
+    every relationship (to-many as sets).  Struct-backed resources share the
+    value-level theorems above; their composition through reflect is decided
+    by the correspondence runs only (hence the remaining _partial). *)
+Theorem C01_soft_resource_roundtrip : forall e sc sr prepath reldata want,
+  let t := s_type sr in
+  wf_res_type t -> tname t <> "" ->
+  get_type (sch_schema sc) (tname t) = t ->
+  lookup (tname t) (sch_wrapped sc) = None ->
+  (forall k a, lookup k (tattrs t) = Some a -> in_domain e a (soft_get sr k)) ->
+  (forall k x, lookup k (trels t) = Some x -> rel_value_ok sr x) ->
+  lookup (tname t) reldata = Some want ->
+  (forall k, In k (map fst (trels t)) -> In k want) ->
+  exists j r',
+    marshal_resource e (RSoft sr) prepath (soft_fields t) reldata = Ok j /\
+    unmarshal_resource e sc j = Ok (RSoft r') /\
+    s_type r' = t /\
+    soft_get r' "id" = soft_get sr "id" /\
+    (forall k a, lookup k (tattrs t) = Some a -> same_value (soft_get sr k) (soft_get r' k)) /\
+    (forall k x, lookup k (trels t) = Some x -> same_rel (soft_get sr k) (soft_get r' k)).
+Proof. exact soft_resource_roundtrip. Qed.
+Print Assumptions C01_soft_resource_roundtrip.
+
+(* non-vacuity of the hypotheses: a type with an attribute of each flavour and
+   both kinds of relationship, a resource holding boundary values *)
+Example c01_roundtrip_premises : c01_example_premises.
+Proof. exact c01_example_premises_hold. Qed.
 
 (* non-vacuity: the boundary values the property names are in the domain *)
 Example c01_domain_examples : forall e,
